@@ -71,8 +71,10 @@ func (e *Env) rMapsCase(side mapSide, tn string, cs *schema.Case, label string) 
 			continue
 		}
 		e.Run.OK("R-MAPS", key, pos, detail)
-		e.Run.Check("R-MAPS", fmt.Sprintf("%s %s: %s registered before recursion", label, tn, a.dst), pos, fwdIdx < firstConv && backIdx < firstConv || a.src != "n",
-			"both map stores must precede the first recursive conversion (memoisation of cyclic object graphs and duplicate detection rely on it)")
+		// the store that the converter's own look-up reads (keyed by the source node) must precede
+		// the first recursive conversion; the inverse entry only has to exist
+		e.Run.Check("R-MAPS", fmt.Sprintf("%s %s: %s registered before recursion", label, tn, a.dst), pos, fwdIdx < firstConv || a.src != "n",
+			"the store "+side.fwd+"[n] = out must precede the first recursive conversion (memoisation of cyclic graphs and duplicate detection look the source node up there)")
 	}
 	// every map store has a key that cannot be nil at that point
 	for i, ev := range cs.Events {
